@@ -60,7 +60,10 @@ pub fn run_history(s: &mut Stats, limit: usize, tl: usize, hist: &[Op]) {
         s.transitions += 1;
         let r = std::panic::catch_unwind(std::panic::AssertUnwindSafe(|| match *op {
             Op::Tick => {}
-            Op::Set(k, h, sz) => cache.set(KEYS[k], h, content(step + 1, sizes[sz]), mime_of(step + 1)),
+            Op::Set(k, h, sz) => {
+                let _call = crate::report::enter(format!("Cache::set({}, host {}, {} bytes) as operation {} of a history", KEYS[k], h, sizes[sz], step + 1).as_bytes());
+                cache.set(KEYS[k], h, content(step + 1, sizes[sz]), mime_of(step + 1))
+            }
         }));
         if r.is_err() {
             s.violation("cache operation panicked", || ctx("panic in set".into(), step));
